@@ -52,7 +52,7 @@ theorem step_connsOK (crc : Bytes → Nat) {s : Swarm} (hs : ConnsOK s) (act : S
         simp only
         split
         · rename_i hc
-          obtain ⟨hab, _, _, hnb, hna, hla, hlb, _, _⟩ := hc
+          obtain ⟨hab, _, _, hnb, hna, hla, hlb, _⟩ := hc
           obtain ⟨a1, a2, _⟩ := hs a pa ha
           obtain ⟨b1, b2, _⟩ := hs b pb hb
           have h1 : ConnsOK (setPeer s a { pa with conns := b :: pa.conns }) :=
@@ -65,6 +65,11 @@ theorem step_connsOK (crc : Bytes → Nat) {s : Swarm} (hs : ConnsOK s) (act : S
         · exact hs
   | disconnect a b => exact dropEnd_connsOK (dropEnd_connsOK hs a b) b a
   | unblacklist a b =>
+    simp only [Swarm.step]
+    cases ha : s.peers[a]? with
+    | none => exact hs
+    | some pa => exact connsOK_same hs ha rfl
+  | dialfail a b =>
     simp only [Swarm.step]
     cases ha : s.peers[a]? with
     | none => exact hs
@@ -343,7 +348,7 @@ theorem slots_freeable (crc : Bytes → Nat) (pl : Nat) (blob : Bytes) {s : Swar
     unfold CanFetch
     right
     rw [c5]
-    refine ⟨?_, Or.inr ⟨?_, ?_, ?_, ?_, ?_⟩⟩
+    refine ⟨?_, Or.inr ⟨?_, ?_, ?_, ?_⟩⟩
     · -- no request to b is left
       have hnone : (qa.reqs.filter (·.1 = b)) = [] := by
         rw [List.filter_eq_nil_iff]
@@ -362,7 +367,218 @@ theorem slots_freeable (crc : Bytes → Nat) (pl : Nat) (blob : Bytes) {s : Swar
       rw [← c1, ← c2]; exact hl3
     · show b ∉ qa.blacklist.filter (· ≠ b)
       intro h; have := (List.mem_filter.mp h).2; simp at this
-    · show a ∉ qb.blacklist.filter (· ≠ a)
-      intro h; have := (List.mem_filter.mp h).2; simp at this
+
+
+/-! ### slot accounting: connection entries only point to live peers -/
+
+/-- every connection entry points to a peer that exists and has not left ("active conns ⊆ live conns") -/
+def ConnsLive (s : Swarm) : Prop :=
+  ∀ (a : Nat) (p : Peer), s.peers[a]? = some p → ∀ c, c ∈ p.conns → ∃ q, s.peers[c]? = some q ∧ q.present = true
+
+/-- rewriting peer `x` with a record that keeps `present` and whose connections all point to live peers -/
+theorem live_setPeer {s : Swarm} {x : Nat} {px q : Peer} (hl : ConnsLive s) (hx : s.peers[x]? = some px)
+    (hpres : q.present = px.present)
+    (hconns : ∀ c, c ∈ q.conns → ∃ r, s.peers[c]? = some r ∧ r.present = true) : ConnsLive (setPeer s x q) := by
+  have lift : ∀ (c : Nat) (r : Peer), s.peers[c]? = some r → r.present = true →
+      ∃ r' : Peer, (setPeer s x q).peers[c]? = some r' ∧ r'.present = true := by
+    intro c r hc hr
+    by_cases hcx : x = c
+    · subst hcx
+      rw [hx] at hc; cases hc
+      exact ⟨q, setPeer_get_self hx, by rw [hpres]; exact hr⟩
+    · exact ⟨r, by rw [setPeer_get_other hcx]; exact hc, hr⟩
+  intro a p hp c hc
+  by_cases hax : x = a
+  · subst hax
+    rw [setPeer_get_self hx] at hp; cases hp
+    obtain ⟨r, h1, h2⟩ := hconns c hc
+    exact lift c r h1 h2
+  · rw [setPeer_get_other hax] at hp
+    obtain ⟨r, h1, h2⟩ := hl a p hp c hc
+    exact lift c r h1 h2
+
+theorem live_same {s : Swarm} {x : Nat} {px q : Peer} (hl : ConnsLive s) (hx : s.peers[x]? = some px)
+    (hpres : q.present = px.present) (hsub : ∀ c, c ∈ q.conns → c ∈ px.conns) : ConnsLive (setPeer s x q) :=
+  live_setPeer hl hx hpres (fun c hc => hl x px hx c (hsub c hc))
+
+theorem markInvalid_present (pa : Peer) (b i : Nat) : (markInvalid pa b i).present = pa.present := by
+  unfold markInvalid; simp only; split <;> rfl
+
+theorem dropEnd_live {s : Swarm} (hl : ConnsLive s) (a b : Nat) : ConnsLive (dropEnd s a b) := by
+  unfold dropEnd
+  cases ha : s.peers[a]? with
+  | none => exact hl
+  | some pa => exact live_same hl ha rfl (fun c hc => List.mem_of_mem_erase hc)
+
+theorem step_live_conns (crc : Bytes → Nat) {s : Swarm} (hc : ConnsOK s) (hl : ConnsLive s) (act : Swarm.Action) :
+    ConnsLive (Swarm.step crc s act) := by
+  cases act with
+  | connect a b =>
+    simp only [Swarm.step]
+    cases ha : s.peers[a]? with
+    | none => exact hl
+    | some pa =>
+      cases hb : s.peers[b]? with
+      | none => exact hl
+      | some pb =>
+        simp only
+        split
+        · rename_i hcond
+          obtain ⟨hab, hpa, hpb, _⟩ := hcond
+          have h1 : ConnsLive (setPeer s a { pa with conns := b :: pa.conns }) := by
+            refine live_setPeer hl ha ?_ ?_
+            · rfl
+            intro c hc'
+            rcases List.mem_cons.mp hc' with e | e
+            · subst e; exact ⟨pb, hb, hpb⟩
+            · exact hl a pa ha c e
+          have hb' : (setPeer s a { pa with conns := b :: pa.conns }).peers[b]? = some pb := by
+            rw [setPeer_get_other hab]; exact hb
+          refine live_setPeer h1 hb' ?_ ?_
+          · rfl
+          intro c hc'
+          rcases List.mem_cons.mp hc' with e | e
+          · subst e; exact ⟨_, setPeer_get_self ha, hpa⟩
+          · exact h1 b pb hb' c e
+        · exact hl
+  | disconnect a b => exact dropEnd_live (dropEnd_live hl a b) b a
+  | dialfail a b =>
+    simp only [Swarm.step]
+    cases ha : s.peers[a]? with
+    | none => exact hl
+    | some pa => exact live_same hl ha rfl (fun _ h => h)
+  | unblacklist a b =>
+    simp only [Swarm.step]
+    cases ha : s.peers[a]? with
+    | none => exact hl
+    | some pa => exact live_same hl ha rfl (fun _ h => h)
+  | expire a b i =>
+    simp only [Swarm.step]
+    cases ha : s.peers[a]? with
+    | none => exact hl
+    | some pa => simp only; split; exact live_same hl ha rfl (fun _ h => h); exact hl
+  | reqfail a b i =>
+    simp only [Swarm.step]
+    cases ha : s.peers[a]? with
+    | none => exact hl
+    | some pa =>
+      exact live_same hl ha (markInvalid_present pa b i) (fun c h => by rw [markInvalid_conns] at h; exact h)
+  | resend a f b i =>
+    simp only [Swarm.step]
+    cases ha : s.peers[a]? with
+    | none => exact hl
+    | some pa =>
+      cases hb : s.peers[b]? with
+      | none => exact hl
+      | some pb => simp only; split; exact live_same hl ha rfl (fun _ h => h); exact hl
+  | leave a =>
+    simp only [Swarm.step]
+    cases ha : s.peers[a]? with
+    | none => exact hl
+    | some pa =>
+      simp only
+      intro z p hp c hcm
+      rw [List.getElem?_set] at hp
+      split at hp
+      · split at hp
+        · cases hp; simp at hcm
+        · cases hp
+      · rename_i hza
+        rw [List.getElem?_map] at hp
+        cases hz : s.peers[z]? with
+        | none => rw [hz] at hp; cases hp
+        | some pz =>
+          rw [hz] at hp; cases hp
+          simp only at hcm
+          have hcz : c ∈ pz.conns := List.mem_of_mem_erase hcm
+          have hca : c ≠ a := by
+            intro e; subst e
+            exact ((List.Nodup.mem_erase_iff (hc z pz hz).1).mp hcm).1 rfl
+          obtain ⟨r, h1, h2⟩ := hl z pz hz c hcz
+          refine ⟨{ r with conns := r.conns.erase a, reqs := r.reqs.filter (·.1 ≠ a) }, ?_, h2⟩
+          rw [List.getElem?_set_ne (Ne.symm hca), List.getElem?_map, h1]
+          rfl
+  | request a b i =>
+    simp only [Swarm.step]
+    cases ha : s.peers[a]? with
+    | none => exact hl
+    | some pa =>
+      cases hb : s.peers[b]? with
+      | none => exact hl
+      | some pb => simp only; split; exact live_same hl ha rfl (fun _ h => h); exact hl
+  | deliver a b i g =>
+    simp only [Swarm.step]
+    cases ha : s.peers[a]? with
+    | none => exact hl
+    | some pa =>
+      cases hb : s.peers[b]? with
+      | none => exact hl
+      | some pb =>
+        simp only
+        split
+        · cases hw : wirePayload pb i g with
+          | none => exact live_same hl ha (markInvalid_present pa b i) (fun c h => by rw [markInvalid_conns] at h; exact h)
+          | some payload => exact live_same hl ha rfl (fun _ h => h)
+        · exact hl
+  | tstep a tid k =>
+    simp only [Swarm.step]
+    cases ha : s.peers[a]? with
+    | none => exact hl
+    | some pa => exact live_same hl ha rfl (fun _ h => h)
+  | resolve a tid =>
+    simp only [Swarm.step]
+    cases ha : s.peers[a]? with
+    | none => exact hl
+    | some pa =>
+      simp only
+      cases hf : pa.inflight.find? (·.tid = tid) with
+      | none => exact hl
+      | some d =>
+        cases hr : (pa.tor.threads[tid]?).bind (·.result) with
+        | none => exact hl
+        | some r =>
+          simp only
+          cases r <;> first
+            | exact live_same hl ha rfl (fun _ h => h)
+            | exact live_same hl ha (markInvalid_present _ _ _) (fun c h => by rw [markInvalid_conns] at h; exact h)
+
+theorem init_live_conns (cfg : Cfg) (mi : MetaInfo) (blob : Bytes) (seeders : List Bool) (agents : Nat) :
+    ConnsLive (initSwarm cfg mi blob seeders agents) := by
+  intro a p hp c hc
+  simp only [initSwarm] at hp
+  rw [List.getElem?_append] at hp
+  split at hp
+  · rw [List.getElem?_map] at hp
+    cases hs : seeders[a]? with
+    | none => rw [hs] at hp; cases hp
+    | some x => rw [hs] at hp; cases hp; simp at hc
+  · rw [List.getElem?_replicate] at hp
+    split at hp
+    · cases hp; simp at hc
+    · cases hp
+
+/-- a departing peer frees every slot it held: nobody is connected to it any more, it holds none -/
+theorem leave_frees_slots (crc : Bytes → Nat) {s : Swarm} (hc : ConnsOK s) (b : Nat) (pb : Peer)
+    (hb : s.peers[b]? = some pb) (a : Nat) (pa' : Peer)
+    (ha' : (Swarm.step crc s (.leave b)).peers[a]? = some pa') :
+    b ∉ pa'.conns ∧ (a = b → pa'.conns = [] ∧ pa'.present = false) ∧
+    (∀ pa, s.peers[a]? = some pa → pa'.conns.length ≤ pa.conns.length) := by
+  simp only [Swarm.step, hb] at ha'
+  rw [List.getElem?_set] at ha'
+  split at ha'
+  · split at ha'
+    · cases ha'; rename_i h _
+      refine ⟨by simp, fun _ => ⟨rfl, rfl⟩, fun pa _ => by simp⟩
+    · cases ha'
+  · rename_i hne
+    rw [List.getElem?_map] at ha'
+    cases hz : s.peers[a]? with
+    | none => rw [hz] at ha'; cases ha'
+    | some pz =>
+      rw [hz] at ha'; cases ha'
+      refine ⟨?_, fun e => absurd e.symm hne, ?_⟩
+      · intro h
+        exact ((List.Nodup.mem_erase_iff (hc a pz hz).1).mp h).1 rfl
+      · intro pa hpa; cases hpa; exact List.length_erase_le ..
 
 end KrakenModel.Proof.C19
